@@ -83,6 +83,10 @@ class Interp(ExprMixin, StmtMixin):
         from theories import values_th as VT
         return z3.Or(*[VT.cls_of(val.term) == VT.CLS[n] for n in ("list", "set", "dict", "defaultdict", "tuple")])
 
+    def exact_builtin_hashable(self, val):
+        from theories import values_th as VT
+        return z3.Or(*[VT.cls_of(val.term) == VT.CLS[n] for n in ("str", "int", "bool", "NoneType")])
+
     # ------------------------------------------------------------- branching
     def branch(self, cond, line=0, tag=""):
         st = self.st
@@ -161,6 +165,8 @@ class Interp(ExprMixin, StmtMixin):
             return PyC(None)
         if isinstance(f, ast.Name) and f.id in ("all", "any") and f.id not in self.st.env and len(node.args) == 1 \
                 and isinstance(node.args[0], ast.GeneratorExp) and not self.st.spec_mode:
+            if len(node.args[0].generators) > 1:
+                return self.quant_nested(node.args[0], f.id == "all")
             box = []
             comp = self.comprehension(node.args[0], "seq", defer_box=box)
             val = self._quant([comp], node, f.id == "all")
@@ -191,6 +197,42 @@ class Interp(ExprMixin, StmtMixin):
                 raise Unsupported("**kwargs call")
             kwargs[kw.arg] = self.eval(kw.value)
         return self.call_value(callee, args, kwargs, node)
+
+    def quant_nested(self, gen, universal):
+        """all(...) / any(...) over a generator expression with several `for` clauses: a nested bounded quantifier.
+        (Partial operations in it become obligations for every element - stricter than the short-circuiting evaluation, never weaker.)"""
+        st = self.st
+        saved = dict(st.env)
+        pushed = 0
+        binders = []
+        try:
+            for g in gen.generators:
+                src = self.eval(g.iter)
+                if isinstance(src, (PySeq, PyDict)):
+                    raise Unsupported("nested comprehension over a display")
+                if self.tainted(src):
+                    self.effect("iteration", self.exact_builtin_container(src), gen)
+                sv = self.seq_of(src)
+                j = L.fresh("j", L.I)
+                guard = z3.And(0 <= j, j < L.len_(sv.term))
+                st.qctx.append(((j,), guard))
+                pushed += 1
+                self.bind_target(g.target, self.retag(L.nth(sv.term, j), self.elem_tag(sv)))
+                conds = [as_bool(self.eval(c)) for c in g.ifs]
+                cond = z3.And(*conds) if conds else None
+                if cond is not None:
+                    st.qctx.append(((), cond))
+                    pushed += 1
+                binders.append((j, guard, cond))
+            body = as_bool(self.eval(gen.elt))
+        finally:
+            for _ in range(pushed):
+                st.qctx.pop()
+            st.env = saved
+        for j, guard, cond in reversed(binders):
+            g_ = guard if cond is None else z3.And(guard, cond)
+            body = z3.ForAll([j], z3.Implies(g_, body)) if universal else z3.Exists([j], z3.And(g_, body))
+        return ZB(body)
 
     def eval_old(self, node):
         st = self.st
@@ -230,6 +272,8 @@ class Interp(ExprMixin, StmtMixin):
                 if h is None:
                     raise Unsupported("subscription of %s" % path)
                 return h.f(self, args, kwargs, node)
+            if path.startswith("builtins.") and isinstance(R.EXTERNALS.get(path), R.ExtFn):
+                return R.EXTERNALS[path].f(self, args, kwargs, node)
             if path.startswith("builtins."):
                 b = getattr(self, "b_" + path[len("builtins."):], None)
                 if b is None:
@@ -872,7 +916,7 @@ class Interp(ExprMixin, StmtMixin):
             self.effect("keys()", self.exact_builtin_container(recv), node)
         if isinstance(recv, PyDict):
             return PySeq([k for k, _ in recv.items], "list")
-        et = self.elem_tag(recv)
+        et = self.elem_tag(recv) or ("Val" if self.tainted(recv) else None)     # the keys of a program object are program objects
         return ZV(recv.term, "Seq[%s]" % et if et else "seq")
 
     def m_values(self, recv, args, kwargs, bm, node):
@@ -880,7 +924,7 @@ class Interp(ExprMixin, StmtMixin):
             self.effect("values()", self.exact_builtin_container(recv), node)
         if isinstance(recv, PyDict):
             return PySeq([v for _, v in recv.items], "list")
-        vt = self.val_tag(recv)
+        vt = self.val_tag(recv) or ("Val" if self.tainted(recv) else None)
         return ZV(L.dict_values(recv.term), "Seq[%s]" % vt if vt else "seq")
 
     def m_items(self, recv, args, kwargs, bm, node):
@@ -889,6 +933,8 @@ class Interp(ExprMixin, StmtMixin):
         if isinstance(recv, PyDict):
             return PySeq([PySeq([k, v]) for k, v in recv.items], "list")
         kt, vt = self.elem_tag(recv), self.val_tag(recv)
+        if self.tainted(recv):
+            kt, vt = kt or "Val", vt or "Val"
         return ZV(L.dict_items(recv.term), "Seq[Pair[%s,%s]]" % (kt, vt) if kt or vt else "seq")
 
     def m_format(self, recv, args, kwargs, bm, node):
